@@ -30,6 +30,7 @@ import Gama.Model.AcordBase
 import Gama.Model.AcordAzimuth
 import Gama.Model.AcordHdiffVector
 import Gama.Model.AcordZderived
+import Gama.Model.AcordIntersection
 namespace Gama.Acord
 open Scalar Trig Cogo Median
 
@@ -209,6 +210,46 @@ def zdAlg (od : List (Cluster ι K)) : Alg (G ι K (Priv ι K Q)) where
   completed g := g.priv.zd.completed
 
 end wrappers
+
+/-! ## AcordIntersection as a strategy of the list (round 4)
+
+What `AcordIntersection::execute` reads and writes besides `PD_` and `missing_xy_`: its own `prepared_/completed_`,
+the orientations of the REAL stand-points (`StandPoint::set_orientation`, written by `Orientation::add_all` inside
+ApproxPoint::reset) and the STATIC small-angle limit of CoordinateGeometry2D.  None of the four strategies above
+reads either of them, so they live in the `rest` component of `Priv`. -/
+
+/-- private state of AcordIntersection + orientations of the real clusters + the static small-angle limit -/
+structure AiPriv (K : Type) where
+  alg : Inter.AiAlg
+  oris : List (Option K)
+  sal : K
+
+section aiwrapper
+variable [Trig K]
+
+/-- AcordIntersection (`keys` = ids of the point list, `extra` = an Azimuth / Xdiff is present, `cls` = the clusters of
+    `OD` as AcordIntersection sees them) -/
+def aiAlg (fuel : Nat) (lt : ι → ι → Bool) (keys : List ι) (extra : Bool) (xN : K) (cls : List (Inter.Cl ι K)) :
+    Alg (G ι K (Priv ι K (AiPriv K))) where
+  exec g :=
+    let r := Inter.aiExecute fuel lt keys extra xN cls g.priv.rest.alg
+      ⟨g.st.pd, g.priv.rest.oris, g.st.missXY, g.priv.rest.sal⟩
+    { g with st := { g.st with pd := r.2.pd, missXY := r.2.missXY },
+             priv := { g.priv with rest := ⟨r.1, r.2.oris, r.2.sal⟩ } }
+  completed g := g.priv.rest.alg.completed
+
+/-- the strategy list of the constructor of Acord2 restricted to the MODELLED strategies: AcordAzimuth, AcordHdiff,
+    AcordZderived, AcordVector, AcordIntersection in the constructor's order (AcordPolar, AcordTraverse,
+    AcordWeakChecks, which stand between AcordVector and AcordIntersection, are not modelled: the list is the
+    constructor's list on networks where these three do nothing) -/
+def modelledAlgs (fuel : Nat) (lt : ι → ι → Bool) (keys : List ι) (extra : Bool) (xN : K)
+    (od : List (Cluster ι K)) (cls : List (Inter.Cl ι K))
+    (hasAzimuths hasHdiffs slope hasVectors hasStandpoints : Bool) : List (Alg (G ι K (Priv ι K (AiPriv K)))) :=
+  (if hasAzimuths then [azAlg fuel lt xN od] else []) ++ (if hasHdiffs then [hdAlg fuel od] else []) ++
+  (if slope then [zdAlg od] else []) ++ (if hasVectors then [vecAlg fuel od] else []) ++
+  (if hasStandpoints then [aiAlg fuel lt keys extra xN cls] else [])
+
+end aiwrapper
 
 /-- the constructor of Acord2: `if (has_azimuths_) push(AcordAzimuth); if (!HDiffClusters_.empty())
     push(AcordHdiff); if (slope_observations_) push(AcordZderived); if (!VectorsClusters_.empty())
